@@ -295,7 +295,7 @@ def install():
             T.emit("new", c=vid, k="frag")
         else:
             T.emit("new", c=vid, k="elem", ns=NSMAP.get(el.namespaceURI, el.namespaceURI),
-                   n=enc(el.localName if el.namespaceURI else el.tagName))
+                   n=enc(el.tagName))             # the qualified name html5lib passed to createElement[NS]
     wrap(dm.NodeBuilder, "__init__", "dom", d_new)
     wrap(dm.NodeBuilder, "appendChild", "dom", lambda s, a, kw, rv, exc: T.emit("append", s=V(s), c=V(a[0]), exc=exc))
     wrap(dm.NodeBuilder, "insertBefore", "dom", lambda s, a, kw, rv, exc: T.emit("before", s=V(s), c=V(a[0]), r=V(a[1]), exc=exc))
